@@ -114,7 +114,8 @@ META = {
         "on every multiset of chips, radius 20 resp. 0 | route on a 2x1 "
         "mesh radius 0 resp. a 2x2 torus radius 20 with 1 symbolic dead "
         "link, both orders (for 2 of the source / sink combinations "
-        "the content of the hexagon memo decides the tree); route 3x3 K=1; route 2x3 torus K=1 "
+        "the content of the hexagon memo decides the tree); route 3x3 "
+        "K=1; route 2x3 torus K=1 "
         "radius 1 | route 3x3 radius 20; route 2x2 mesh K=1 | "
         "sequential.place; thorough: 4x3 and 4x4 meshes.  (b) OBJECT "
         "HISTORIES: Machine(w, h) defaults after each of 5 kinds of public "
@@ -122,9 +123,18 @@ META = {
         "copy(), symbolic sizes, coordinates and amounts; two BitFields of "
         "lengths 8 and 12 (thorough also 16 / 8) with the same identifiers, "
         "3-4 fields each (untagged parent with a tagged child, untagged "
-        "leaf, explicit symbolic length / start), symbolic 2-bit values, "
-        "the second defined and laid out after step 0, 2, 4 (thorough: "
-        "every step) of the first, each also alone before and after; 4 "
+        "leaf, explicit symbolic length / start; tags given as None, as "
+        "strings and as a caller-owned `set` object), symbolic 2-bit "
+        "values, the second defined and laid out after step 0, 2, 4 "
+        "(thorough: every step) of the first, each also alone (with tag "
+        "sets of its own) before and after; in the interleaved run ONE "
+        "set object is the tags argument of a parent field of the first "
+        "bit field -- which afterwards gets a differently tagged child -- "
+        "and of a leaf of the second; every set handed to add_field is "
+        "compared with its copy after every later add_field, and the "
+        "second bit field's get_tags / get_mask(tag=..) / UnknownTagError "
+        "are read during its definition and again after the first is "
+        "complete; 4 "
         "MachineControllers, the second one's context changed in 6 ways "
         "(update_current_context, an open `with mc(app_id=..)`, "
         "get_new_context, an explicit initial_context dictionary, "
@@ -1445,10 +1455,13 @@ def h_machine_defaults(ctx):
 # ======================================================================
 # (b) bit fields
 # ======================================================================
-def _bf_program(ctx, bf, ops, vals, upto=None, start=0):
+def _bf_program(ctx, bf, ops, vals, upto=None, start=0, watch=None):
     """Run ops[start:upto] on bit field `bf`; returns the list of outcomes.
     ops: ("add", name, scope, length, start_at, tags) / ("set", scope) /
-    ("assign",) / ("read", scope).  scope: tuple of (field, value key)."""
+    ("assign",) / ("read", scope).  scope: tuple of (field, value key);
+    tags: None, a string, or the key "S" of a caller-owned `set` in vals.
+    watch: [(set object, frozen copy)] of every set handed to add_field so
+    far by anybody; all of them must be intact after every add_field."""
     out = []
     for op in ops[start:upto]:
         try:
@@ -1456,8 +1469,19 @@ def _bf_program(ctx, bf, ops, vals, upto=None, start=0):
                 _, name, scope, ln, st, tags = op
                 h = bf(**dict((f, vals.get(k, k)) for f, k in scope)) \
                     if scope else bf
-                h.add_field(name, length=vals.get(ln, ln),
-                            start_at=vals.get(st, st), tags=tags)
+                tags = vals.get(tags, tags) if tags is not None else None
+                if isinstance(tags, set) and watch is not None and not any(
+                        o is tags for o, _ in watch):
+                    watch.append((tags, frozenset(tags)))
+                try:
+                    h.add_field(name, length=vals.get(ln, ln),
+                                start_at=vals.get(st, st), tags=tags)
+                finally:
+                    bad = [(sorted(c), sorted(o)) for o, c in (watch or ())
+                           if set(o) != c]
+                    ctx.prove(not bad, "bitfield-argument-modified",
+                              ("tags set given to add_field, before / after "
+                               "add_field(%r)" % name, bad))
                 out.append(("add", name, "ok"))
             elif op[0] == "set":
                 h = bf(**dict((f, vals.get(k, k)) for f, k in op[1]))
@@ -1489,26 +1513,29 @@ def _bf_program(ctx, bf, ops, vals, upto=None, start=0):
 
 # Both programs have an untagged parent whose child is tagged (tags
 # propagate to parents) and an untagged leaf, and use the same identifiers.
+# "S" is a `set` object owned by the caller: the tags of P's parent field `a`
+# (which later gets a differently tagged child) and of A's leaf `c`.
 BF_P = (
-    ("add", "a", (), None, None, None),
+    ("add", "a", (), None, None, "S"),
     ("add", "b", (), None, None, None),
     ("add", "c", (("a", "ka"),), "Lc", None, "t u"),
     ("set", (("a", "ka"), ("b", "xb"), ("c", "xc"))),
     ("assign",),
-    ("read", (("a", "ka"), ("b", "xb"), ("c", "xc")), ("t", "u", "v")),
-    ("read", (("b", "xb"),), ("t", "v")),
+    ("read", (("a", "ka"), ("b", "xb"), ("c", "xc")), ("s", "t", "u", "v")),
+    ("read", (("b", "xb"),), ("s", "t", "v")),
 )
 BF_A = (
     ("add", "b", (), "La", "Sa", "u"),
     ("add", "a", (), None, None, None),
-    ("add", "c", (("b", "ya"),), None, None, None),
+    ("add", "c", (("b", "ya"),), None, None, "S"),
     ("add", "z", (("a", "yb"),), None, None, "v"),
     ("set", (("b", "ya"), ("a", "yb"), ("c", 1), ("z", 1))),
     ("assign",),
     ("read", (("b", "ya"), ("a", "yb"), ("c", 1), ("z", 1)),
-     ("t", "u", "v")),
-    ("read", (("a", "yb"),), ("t", "u", "v")),
+     ("s", "t", "u", "v")),
+    ("read", (("a", "yb"),), ("s", "t", "u", "v")),
 )
+BF_A_READS = tuple(op for op in BF_A if op[0] == "read")
 
 
 def h_bitfields(ctx, cut, blen_p, blen_a, vbits=2, other_first=False):
@@ -1526,38 +1553,62 @@ def h_bitfields(ctx, cut, blen_p, blen_a, vbits=2, other_first=False):
                 avals[k] = ctx.bv("a_" + k, vbits)
             avals["La"] = ctx.bv("a_La", 3, 2, 3)
             avals["Sa"] = ctx.bv("a_Sa", 4, 0, 9)
-            # references: each program on a bit field of its own; the one
-            # that goes first runs before any other bit field exists
+            # references: each program on a bit field of its own with a
+            # tags set of its own; the one that goes first runs before any
+            # other bit field exists
+            watch = []
+
+            def own(v):
+                return dict(v, S={"s"})
             if other_first:
-                refa = _bf_program(ctx, BitField(blen_a), BF_A, avals)
-            ref = _bf_program(ctx, BitField(blen_p), BF_P, vals)
+                refa = _bf_program(ctx, BitField(blen_a), BF_A, own(avals),
+                                   watch=watch)
+            ref = _bf_program(ctx, BitField(blen_p), BF_P, own(vals),
+                              watch=watch)
             if not other_first:
-                refa = _bf_program(ctx, BitField(blen_a), BF_A, avals)
+                refa = _bf_program(ctx, BitField(blen_a), BF_A, own(avals),
+                                   watch=watch)
             ctx.observe("ref", plain(ref), plain(refa))
             if ref[-1][0] == "read" and isinstance(ref[-1][1], list):
                 ctx.witness("probe-read")
             # interleaved: the first `cut` steps, then the other bit field
-            # is created, defined and laid out, then the rest
+            # is created, defined and laid out, then the rest.  ONE set
+            # object is the tags argument of a field of each bit field.
+            shared = {"s"}
+            vals_i, avals_i = dict(vals, S=shared), dict(avals, S=shared)
             untouched = BitField(blen_p)
             bp = BitField(blen_p)
             ba = BitField(blen_a)
-            got = _bf_program(ctx, bp, BF_P, vals, upto=cut)
+            got = _bf_program(ctx, bp, BF_P, vals_i, upto=cut, watch=watch)
             failed = bool(got) and (len(got[-1]) == 2 and
                                     isinstance(got[-1][1], str) and
                                     got[-1][1] != "ok")
             if len(got) == cut and not failed:
-                ra = _bf_program(ctx, ba, BF_A, avals)
+                ra = _bf_program(ctx, ba, BF_A, avals_i, watch=watch)
                 ctx.observe("other", plain(ra))
                 if ra[-1][0] == "read" and isinstance(ra[-1][1], list):
                     ctx.witness("other-read")
                 prove_same(ctx, snap(refa), snap(ra), False, L,
                            "other bit field defined inside the probe's "
                            "definitions")
-                got = got + _bf_program(ctx, bp, BF_P, vals, start=cut)
+                got = got + _bf_program(ctx, bp, BF_P, vals_i, start=cut,
+                                        watch=watch)
+                # ... and still reads the same once the probe's bit field
+                # is complete (tagged child added under the field whose
+                # tags argument was the shared set)
+                if ra[-1][0] == "read" and isinstance(ra[-1][1], list):
+                    again = _bf_program(ctx, ba, BF_A_READS, avals_i)
+                    prove_same(ctx, snap(refa[-len(again):]), snap(again),
+                               False, L, "other bit field read again after "
+                               "the probe's later definitions")
+                    ctx.witness("other-read-again")
             prove_same(ctx, snap(ref), snap(got), False, L,
                        "probe bit field defined around another one")
+            ctx.prove(shared == {"s"}, "bitfield-argument-modified",
+                      ("tags set shared by two bit fields", sorted(shared)))
             # the other bit field alone, afterwards, gives what it gave
-            ra2 = _bf_program(ctx, BitField(blen_a), BF_A, avals)
+            ra2 = _bf_program(ctx, BitField(blen_a), BF_A, own(avals),
+                              watch=watch)
             prove_same(ctx, snap(refa), snap(ra2), False, L,
                        "later definition of the other bit field")
             # a bit field nobody touched has no fields
@@ -2010,7 +2061,8 @@ def units(tier, seed):
                        "after step %d" % cut, h_bitfields,
                        dict(cut=cut, blen_p=8, blen_a=12,
                             other_first=(cut % 4 == 2)), split=5,
-                       witnesses=("probe-read", "other-read"),
+                       witnesses=("probe-read", "other-read",
+                                  "other-read-again"),
                        path_timeout_s=120))
     if thorough:
         us.append(Unit("history BitField definitions, lengths 16 / 8",
